@@ -359,6 +359,61 @@ def run(ctx):
                    '' if not only_indexed else 'post%s reads node.%s only at a constant index: the other items of the list are dropped from the regenerated source' % (kind, fld),
                    node=f.node)
 
+    # ---------------------------------------------------------------- SCOPE
+    # outer-scope expressions are evaluated by extract_vars with eval-like extractors over (globals, locals); for a lambda that
+    # was created in another function the free variables live in closure cells, and Python resolves a free variable to its
+    # cell, never to a same-named local of whoever happens to call: the cell contents must override the frame's locals
+    ev = repo.fn('pony.orm.core', 'extract_vars')
+    def absval(e, env):
+        if isinstance(e, ast.Name): return list(env.get(e.id, [e.id]))
+        if isinstance(e, ast.Call) and isinstance(e.func, ast.Attribute) and e.func.attr == 'copy' and not e.args: return absval(e.func.value, env)
+        if isinstance(e, ast.Call) and dotted(e.func) == 'dict':
+            out = []
+            for a in e.args: out += absval(a, env)
+            for k in e.keywords:
+                if k.arg is None: out += absval(k.value, env)
+            return out
+        if isinstance(e, ast.Dict):
+            out = []
+            for k, v in zip(e.keys, e.values):
+                if k is None: out += absval(v, env)
+            return out
+        if isinstance(e, ast.BinOp) and isinstance(e.op, ast.BitOr): return absval(e.left, env) + absval(e.right, env)
+        if isinstance(e, ast.DictComp) and 'cell_contents' in norm(e.value) and 'cells' in norm(e.generators[0].iter): return ['cells']
+        if isinstance(e, ast.Call) and dotted(e.func) in ('ChainMap', 'collections.ChainMap'):
+            out = []
+            for a in reversed(e.args): out += absval(a, env)
+            return out
+        return ['?' + norm(e)[:30]]
+    env = {p_: [p_] for p_ in ev.params}
+    uses = []
+    def interp(stmts):
+        for st in stmts:
+            if isinstance(st, ast.Assign) and len(st.targets) == 1 and isinstance(st.targets[0], ast.Name):
+                env[st.targets[0].id] = absval(st.value, env)
+            elif isinstance(st, ast.Assign) and len(st.targets) == 1 and isinstance(st.targets[0], ast.Subscript) and isinstance(st.targets[0].value, ast.Name) \
+                    and 'cell_contents' in norm(st.value):
+                env.setdefault(st.targets[0].value.id, [st.targets[0].value.id]).append('cells')
+            elif isinstance(st, ast.Expr) and isinstance(st.value, ast.Call) and isinstance(st.value.func, ast.Attribute) and st.value.func.attr == 'update' \
+                    and isinstance(st.value.func.value, ast.Name) and st.value.args:
+                env.setdefault(st.value.func.value.id, [st.value.func.value.id]).extend(absval(st.value.args[0], env))
+            elif isinstance(st, ast.If): interp(st.body)                    # scenario: a closure is present (`if cells:` taken)
+            elif isinstance(st, (ast.For, ast.While)): interp(st.body)
+            elif isinstance(st, ast.Try): interp(st.body)
+            for c in ([x for x in ast.walk(st) if isinstance(x, ast.Call)] if not isinstance(st, (ast.If, ast.For, ast.While, ast.Try)) else []):
+                if isinstance(c.func, ast.Name) and c.func.id in ('extractor', 'eval') and len(c.args) >= 2:
+                    uses.append((c, absval(c.args[-1], env)))
+    interp(ev.node.body)
+    ctx.need(bool(uses), 'C04-SCOPE: no extractor(globals, locals) call found in extract_vars')
+    for c, val in uses:
+        unknown = [v for v in val if v.startswith('?')]
+        ctx.need(not unknown, 'C04-SCOPE: cannot interpret how the evaluation namespace is built in extract_vars: %s' % unknown)
+        ok = 'cells' in val and 'locals' in val and max(i for i, v in enumerate(val) if v == 'cells') > max(i for i, v in enumerate(val) if v == 'locals')
+        ctx.ob('C04-SCOPE.closure-cells-override-frame-locals', ev, c, ok,
+               '' if ok else 'the namespace outer-scope expressions are evaluated in is built as %s (later entries win): a free variable of a lambda created '
+               'elsewhere is resolved to a same-named local of the calling frame instead of its closure cell' % ' < '.join(val), node=c,
+               expected='locals < cells')
+
 
 MUTANTS = [
     dict(id='C04-m1', file='pony/orm/asttranslation.py', fn='priority',
@@ -370,5 +425,11 @@ MUTANTS = [
     dict(id='C04-m5', file='pony/orm/asttranslation.py', fn='PythonTranslator.postSlice', old="        if node.step:\n            result.append(':')\n            result.append(node.step.src)\n", new='', expect='C04-FIELDS'),
     dict(id='C04-m7', file='pony/orm/asttranslation.py', fn='PythonTranslator.postSubscript', old="        if isinstance(x, ast.Tuple) and len(x.elts) == 1:\n            key = x.elts[0].src + ','\n        elif isinstance(x, ast.Tuple) and x.elts:", new="        if isinstance(x, ast.Tuple):", expect='C04-ARITY'),
     dict(id='C04-m8', file='pony/orm/asttranslation.py', fn='PythonTranslator.postTuple', old="        if len(node.elts) == 1:\n            return '(%s,)' % node.elts[0].src\n", new='', expect='C04-ARITY'),
+    dict(id='C04-m9', file='pony/orm/core.py', fn='extract_vars',
+         old="        locals = locals.copy()\n        for name, cell in cells.items():\n            try:\n                locals[name] = cell.cell_contents\n            except ValueError:\n                throw(NameError, 'Free variable `%s` referenced before assignment in enclosing scope' % name)\n",
+         new="        closure_vars = {}\n        for name, cell in cells.items():\n            try:\n                closure_vars[name] = cell.cell_contents\n            except ValueError:\n                throw(NameError, 'Free variable `%s` referenced before assignment in enclosing scope' % name)\n        locals = dict(closure_vars, **locals)\n", expect='C04-SCOPE'),
+    dict(id='C04-m10', file='pony/orm/core.py', fn='extract_vars',
+         old="        locals = locals.copy()\n        for name, cell in cells.items():\n            try:\n                locals[name] = cell.cell_contents\n            except ValueError:\n                throw(NameError, 'Free variable `%s` referenced before assignment in enclosing scope' % name)\n",
+         new="        closure_vars = {}\n        for name, cell in cells.items():\n            try:\n                closure_vars[name] = cell.cell_contents\n            except ValueError:\n                throw(NameError, 'Free variable `%s` referenced before assignment in enclosing scope' % name)\n        locals = dict(locals, **closure_vars)\n", benign=True),
     dict(id='C04-m6', file='pony/orm/asttranslation.py', fn='PythonTranslator.postPow', old='    @priority(3)\n    def postPow', new='    @priority(5)\n    def postPow', expect='C04-GROUP'),
 ]
